@@ -37,6 +37,7 @@ type Harness struct {
 	BudgetViolation bool
 	NoMerge   bool
 	SoftMS    int
+	ConcretizeN int
 }
 
 type Loaded struct {
@@ -228,6 +229,8 @@ func (h *Harness) directive(text string) {
 		fmt.Sscanf(strings.TrimPrefix(t, "verif:depth "), "%d", &h.Depth)
 	case strings.HasPrefix(t, "verif:softms "):
 		fmt.Sscanf(strings.TrimPrefix(t, "verif:softms "), "%d", &h.SoftMS)
+	case strings.HasPrefix(t, "verif:concretize "):
+		fmt.Sscanf(strings.TrimPrefix(t, "verif:concretize "), "%d", &h.ConcretizeN)
 	case t == "verif:budget-is-violation":
 		h.BudgetViolation = true
 	case t == "verif:nomerge":
